@@ -55,6 +55,9 @@ POOLS = {
     "date": ["D:2020-01-01", "D:2020-01-02", "D:1999-12-31", None],
     "datetime": ["T:2020-01-01T00:00:00", "T:2020-01-01T12:30:00", None],
     "boolint": [True, False, 0, 1, 2, None],          # int column in which True == 1 and False == 0 must match
+    # distinct keys with EQUAL Python hashes (hash(-1) == hash(-2); ints differing by 2**61-1): anything that identifies a key
+    # by its hash instead of the key itself confuses them
+    "intcollide": [-1, -2, 5, 5 + (2 ** 61 - 1), None],
     "object": [1, "1", "a", True, "D:2020-01-01", None],   # mixed kinds: an object column
 }
 
@@ -407,7 +410,7 @@ def random_keys(rng, nmax=40):
     lk, rk = [], []
     for _ in range(nk):
         for attempt in range(6):
-            kind = rng.choice(["int", "int", "str", "str", "bool", "date", "datetime", "boolint", "object"])
+            kind = rng.choice(["int", "int", "str", "str", "bool", "date", "datetime", "boolint", "object", "intcollide", "intcollide"])
             pool = rng.sample(POOLS[kind], rng.randint(1, min(4, len(POOLS[kind]))))
             if all(p is None for p in pool):
                 pool = pool + [next(p for p in POOLS[kind] if p is not None)]
